@@ -335,6 +335,7 @@ struct Case {
     std::set<std::string> labels;
     bool partial_on = false;
     int64_t K = 1000000, now = 0;
+    bool wall = false;   // packets go through process_packet(PDU&), which stamps them with the current time
     unsigned packets = 0, max_packets = 0, big_bulks = 0;
     uint64_t h = 0;
     std::string desc;
@@ -471,8 +472,13 @@ struct Case {
         if (!m.harness_error.empty()) { VFAIL(ctx, "C07:harness:model-precondition", m.harness_error << " | " << desc); }
         evs.clear();
         {
-            Packet pkt(build(p), Timestamp(std::chrono::microseconds(p.t)), Packet::own_pdu());
-            f->process_packet(pkt);
+            if (wall) {
+                std::unique_ptr<PDU> pdu(build(p));
+                f->process_packet(*pdu);
+            } else {
+                Packet pkt(build(p), Timestamp(std::chrono::microseconds(p.t)), Packet::own_pdu());
+                f->process_packet(pkt);
+            }
         }
         if (ctx.logging()) {
             std::ostringstream o;
@@ -877,6 +883,13 @@ void prop(Src& s, Ctx& ctx) {
     cs.K = KS[h1 & 7];
     static const int64_t T0[4] = {0, -1, 1700000000000000LL, 1};
     cs.now = T0[h2 & 3] < 0 ? cs.K : T0[h2 & 3];
+    if ((h2 & 0xfc) == 0xfc) {
+        // the overload without a timestamp: libtins stamps every packet with the current time, so the generated clock is
+        // switched off (keep-alive one hour, model time constant: no idle termination can be due within a case)
+        cs.wall = true;
+        cs.K = 3600000000LL;
+        ctx.label("process_packet(PDU&)");
+    }
     cs.max_packets = ctx.tier ? 4000 : 1600;
     const unsigned max_events = ctx.tier ? 400 : 160;
     for (unsigned i = 0; i < nconn; ++i) gen_conn(cs, s, (int)i);
@@ -922,7 +935,7 @@ void prop(Src& s, Ctx& ctx) {
                 dt = JT[dtb - 246];
                 cs.labels.insert("time-jump");
             }
-            cs.now += dt;
+            if (!cs.wall) cs.now += dt;
             // operation
             enum { NEXT, DATA, SKIP, RESEND, FIN, RST, SYN, SYNACK, ACK, NONTCP, BULKC, BULKB, FINRST };
             static const uint8_t OPS[32] = {NEXT, NEXT, NEXT, DATA, DATA, DATA, DATA, DATA, DATA, DATA, SKIP, SKIP, SKIP, RESEND, RESEND, RESEND,
